@@ -31,9 +31,19 @@ ValidDoc(d) ==
      [] t = "FeatureCollection" -> \A i \in 1..Len(Items(Get(d, "features"))) : ValidDoc(Items(Get(d, "features"))[i])
      [] t = "Feature" -> ValidDoc(Get(d, "geometry"))
 Transparent(doc, runs) ==
-   LET base == runs[1] IN
+   LET base == runs[1]
+       \* runs with the Circle convention switched off (DisableCircleType) form a group of their own around "dbase"
+       hasD == \E k \in 1..Len(runs) : runs[k].class = "dbase"
+       dbase == IF hasD THEN runs[CHOOSE k \in 1..Len(runs) : runs[k].class = "dbase"] ELSE base
+   IN
    \A i \in 2..Len(runs) : LET r == runs[i] IN
-     CASE r.class = "index" -> /\ r.accepted = base.accepted
+     \* (a document may be rejected only because its Circle properties are malformed: with the convention off it is a plain Feature)
+     CASE r.class = "dbase" -> (base.accepted => r.accepted) /\ (r.accepted => ~r.circle)
+       [] r.class = "dindex" -> /\ r.accepted = dbase.accepted
+                                /\ (r.accepted => r.json = dbase.json /\ r.obs = dbase.obs /\ r.ans = dbase.ans /\ r.circle = dbase.circle)
+       [] r.class = "drepr" -> /\ r.accepted = dbase.accepted
+                               /\ (r.accepted => r.json = dbase.json /\ r.ans = dbase.ans /\ r.circle = dbase.circle)
+       [] r.class = "index" -> /\ r.accepted = base.accepted
                                /\ (r.accepted => r.json = base.json /\ r.obs = base.obs /\ r.ans = base.ans /\ r.circle = base.circle)
        [] r.class = "repr" -> /\ r.accepted = base.accepted
                               /\ (r.accepted => r.json = base.json /\ r.ans = base.ans /\ r.circle = base.circle)
